@@ -19,7 +19,17 @@ stamp() {
     go version; } | sha256sum | cut -d' ' -f1
 }
 NEW=$(stamp)
+build_race() {
+  if [ "${1:-}" = "race" ]; then
+    if [ ! -f .cache/race.stamp ] || [ "$(cat .cache/race.stamp)" != "$NEW" ] || [ ! -x .cache/bin/kmc-race ]; then
+      rm -f .cache/race.stamp
+      (cd harness && CGO_ENABLED=1 go build -race -tags verif -overlay /verif/.cache/overlay/overlay.json -o ../.cache/bin/kmc-race ./cmd/kmc)
+      echo "$NEW" > .cache/race.stamp
+    fi
+  fi
+}
 if [ -f .cache/build.stamp ] && [ "$(cat .cache/build.stamp)" = "$NEW" ] && [ -x .cache/bin/kmc ] && [ -x .cache/bin/knut-plain ] && [ "${KMC_FORCE:-}" = "" ]; then
+  build_race "${1:-}"
   exit 0
 fi
 rm -f .cache/build.stamp
@@ -30,3 +40,4 @@ fi
 (cd harness && go build -tags verif -overlay /verif/.cache/overlay/overlay.json -o ../.cache/bin/kmc ./cmd/kmc)
 (cd /repo && go build -o /verif/.cache/bin/knut-plain .)
 echo "$NEW" > .cache/build.stamp
+build_race "${1:-}"
